@@ -887,7 +887,9 @@ class Facts:
         fam = self.family(path)
         root = fam[0]
         kids = [b for b in self.children.get((root.crate, root.dp), []) if b.kind == "coroutine"]
-        if root.n > 8 or not kids:
+        finfo = self.fns.get(root.path) or self.fns.get(strip_generics(root.path)) or {}
+        is_async = finfo.get("async", False) or (root.n <= 8 and bool(kids))
+        if not is_async or not kids:
             return root
         cur = kids[0]
         for _ in range(4):
